@@ -40,7 +40,8 @@ META = {
         'the window\'s bottom row scrolls at once or only when the next character arrives (both accepted and counted; '
         'pcbasic does either depending on a stale line-continuation flag of that row); where VIEW PRINT, WIDTH and SCREEN leave the cursor (the model is '
         're-synchronised by LOCATE / CLS after them); output on row 25 and SCREEN(r,c) outside an active VIEW PRINT '
-        'window (not generated in modelled segments); attributes; LOCATE to a row outside an active window or to row '
+        'window (not generated in modelled segments; after output on row 25 the model continues from the observed screen '
+        'or from a CLS, without another LOCATE); attributes; LOCATE to a row outside an active window or to row '
         '25 may either move there or raise error 5. The column-80 convention (POS=1, CSRLIN=row of the next character) '
         'is what GW-BASIC documents and is the only reading of "report it" in that state that was accepted.'),
     'rule': ('case = (mode, history of steps up to the compared step); distinct by that; non-trivial = the step printed at least '
@@ -48,7 +49,7 @@ META = {
     'design_ref': 'DESIGN.md section 4 C36',
     'assumptions': ['GW-BASIC screen-editor semantics as encoded in vf/models/c36_rtxt.py'],
     'require_counters': {'any': ['model_steps', 'wraps_seen', 'scrolls_seen', 'scrolls_inside_view_window', 'rows_outside_window_checked',
-                                 'locate_ok', 'locate_error5', 'last_column_state_seen', 'boundary_invariant_checks',
+                                 'locate_ok', 'locate_error5', 'last_column_state_seen', 'boundary_invariant_checks', 'row25_followups_completed',
                                  'screen_fn_samples', 'wild_steps', 'graphics_mode_histories', 'width40_histories',
                                  'control_code_steps']},
     'timeout': {'quick': 900, 'thorough': 7200},
@@ -253,10 +254,12 @@ class Run(object):
         m = cands[0]
         grid, cs, ps = obs
         if grid != m.grid:
-            r = next(i for i in range(len(grid)) if grid[i] != m.grid[i])
+            diff_rows = [i for i in range(len(grid)) if grid[i] != m.grid[i]]
+            # a changed row outside the scroll area names the mechanism best
+            r = next((i for i in diff_rows if not m.in_window(i + 1)), diff_rows[0])
             c = next(j for j in range(len(grid[r])) if grid[r][j] != m.grid[r][j])
             outside = not m.in_window(r + 1)
-            key = 'text:row-outside-window-changed' if (outside and m.view) else (
+            key = 'text:row-outside-window-changed' if outside else (
                 'text:placement:after-scroll' if m.scrolls else ('text:placement:after-wrap' if m.wraps else 'text:placement'))
             res.violation(key, '%s: after %s the screen has %r at row %d col %d, the reference %r (window %d-%d, model cursor %d,%d%s)' % (
                 self.name, what, chr(grid[r][c]), r + 1, c + 1, chr(m.grid[r][c]), m.top, m.bottom, m.row, m.col,
@@ -417,6 +420,61 @@ class Run(object):
                 self.res.violation('width:not-applied', '%s: WIDTH %d accepted but the screen has %d columns' % (self.name, w, W), self.case())
             self.check_reports()
 
+    def step_row25(self, newline, col=None):
+        """
+        KEY OFF + LOCATE 25,c + PRINT on row 25 (what lands on row 25 is not pinned), then back into the modelled
+        world WITHOUT another LOCATE: after a newline the observed screen and reported cursor are adopted, after
+        PRINT ...; a CLS clears it; then plain PRINTs run down to the bottom of rows 1-24 and beyond: scrolling
+        only inside rows 1-24, row 25 unchanged, reports consistent.
+        """
+        m, rng = self.model, self.rng
+        if m.view:
+            return
+        W = m.w
+        c = col or rng.randint(1, max(1, W - 12))
+        out = self.ex(b'LOCATE 25,%d' % c)
+        if self.err(out):
+            self.model = None
+            return
+        cs, ps = self.reports()
+        if (cs, ps) != (25, c):
+            self.res.violation('locate:not-at-requested-cell', '%s: LOCATE 25,%d accepted but CSRLIN=%r POS(0)=%r' % (self.name, c, cs, ps), self.case())
+            self.bad += 1
+            self.model = None
+            return
+        out = self.ex(b'PRINT "%s"%s' % (rstr(rng, rng.randint(1, min(8, W - c))), b'' if newline else b';'))
+        if self.err(out):
+            self.model = None
+            return
+        self.check_reports()
+        self.res.count('row25_excursions')
+        if newline:
+            grid, cs, ps = self.observe()
+            if cs is None or not (1 <= cs <= 24):
+                # where a newline leaves the cursor from row 25 is not pinned; only continue from inside the window
+                self.model = None
+                return
+            m.grid = grid
+            m.locate(cs, ps)
+        else:
+            if self.err(self.ex(b'CLS')):
+                self.model = None
+                return
+            m.cls()
+            if not self.compare('CLS after output on row 25', True):
+                return
+        # run down to the bottom of the scroll area and past it, no LOCATE in between
+        n = (m.bottom - self.model.row) + rng.randint(3, 6)
+        for i in range(n):
+            if self.model is None:
+                return
+            if i == n // 2:
+                self.step_print(rstr(rng, min(240, 2 * W + rng.randint(1, W))), rng.random() < 0.5)
+            else:
+                self.step_print(rstr(rng, rng.randint(0, 12)), True)
+        if self.model is not None:
+            self.res.count('row25_followups_completed')
+
     def fill_outside_rows(self):
         """Distinct text on every row, so that any movement of rows outside a later window is visible."""
         for r in range(1, self.model.h):
@@ -559,6 +617,8 @@ class Run(object):
                         self.step_view(a, b)
                 elif k < 0.89:
                     self.step_width()
+                elif k < 0.93 and not m.view:
+                    self.step_row25(rng.random() < 0.5)
                 else:
                     # leave the modelled world for a few steps
                     self.model = None
@@ -596,6 +656,10 @@ def directed(harness, res):
             (MODES[5], [b'KEY ON', b'LOCATE 1,70', b'SCREEN 3', b'PRINT "x";', b'LOCATE 25,20', b'SCREEN 0', b'WIDTH 80']),
     ):
         Run(harness, res, rng, mode).run(0, [('wild_script', stmts)])
+    # output on row 25, then plain printing without another LOCATE (with newline / with ; + CLS)
+    for mode in (MODES[0], MODES[1], MODES[5], MODES[8], MODES[10]):
+        for nl in (True, False):
+            Run(harness, res, rng, mode).run(0, [('row25', nl, 3), ('print', b'after', True), ('row25', not nl, 20), ('cls',), ('print', b'Z' * 30, True)])
     # 40 columns
     s40 = [('print', b'A' * 39, True), ('print', b'B' * 40, True), ('print', b'C' * 41, False), ('locate', 3, 40), ('print', b'x', False),
            ('fill_outside_rows',), ('view', 10, 12)] + [('print', b'%d' % i, True) for i in range(8)]
